@@ -507,3 +507,31 @@ def check_C16(c):
                      "got": f["line"].get("got", [])[:50], "want": f["line"].get("want", [])[:50]})
     c.assumptions += ["MaxFilelist is a package variable: the driver sets it per case and runs serialized", "entry names are compared as hex strings (non-UTF-8 names survive JSON)"]
     return c.finish()
+
+
+def check_C10(c):
+    scen, cases = export_table(c, "AdapterEnum", "AdapterEnum.cfg", "scen_adapter.json")
+    rc, out, path = c.run("TestVerif_Adapter", env={"VERIF_SCEN": scen}, timeout=3000)
+    ev = vlib.read_ndjson(path)
+    ncases = sum(1 for e in ev if e.get("ev") in ("AdPath", "AdDispatch", "AdError"))
+    c.cov["evaluations"] += ncases
+    c.cov["distinct_nontrivial"] += ncases
+    c.cov["exhaustive"] = c.tier == "thorough"
+    c.cov["rule"] = ("cases of the Adapter.tla tables: 18660 paths (<=4 segments over {'', '.', '..', 'a', 'b.', non-UTF-8} x leading slash x trailing slash x 3 start directories, "
+                     "sent through 13 request types), 1600 (request type, optional handler interfaces) pairs, 45 (error value, os wrapper) pairs through three handler entry points; "
+                     "quick replays all paths of <=3 segments and a seeded quarter of the 4-segment ones; every replayed case is distinct")
+    found = c.validate("TraceAdapter", "TraceAdapter.cfg", path)
+    for f in found:
+        e = f["line"]
+        msg = f["state"].get("c10", "").strip('"')
+        key = "Inv_C10,%s" % e.get("ev")
+        if e.get("ev") == "AdError":
+            key += ",err=%s,wrap=%s" % (e.get("err"), e.get("wrap"))
+        elif e.get("ev") == "AdDispatch":
+            key += ",req=%s" % e.get("req")
+        elif e.get("ev") == "AdPath":
+            key += ",req=%s" % e.get("req")
+        c.violation(key, "%s: %s" % (msg, json.dumps(e)[:400]), {"module": "TraceAdapter", "case": e, "tlc": msg})
+    c.assumptions += ["the argument of a custom RealPath resolver and a symlink's target text are passed verbatim by design (checked as such)",
+                      "SFTP codes wrapped in os error types, and EOF inside os wrappers, are outside the property's wording and not enumerated"]
+    return c.finish()
